@@ -76,7 +76,7 @@ pub fn run(tier: &str) -> i32 {
     if wit.blob_files == 0 {
         o.machinery_errors.push("reachability witness missing: no state with blob files".into());
     }
-    crate::e3::fold_e3(&mut o, "C01", tier, &bodies(tier), "e3_");
+    crate::e3::fold_e3(&mut o, "C01", tier, &crate::e3::with_variants(bodies(tier), tier), "e3_");
     o.wall_s = t0.elapsed().as_secs_f64();
     finish(o)
 }
@@ -86,7 +86,7 @@ pub fn replay(v: &serde_json::Value) -> i32 {
         let tier = v["variant"]["tier"].as_str().unwrap_or("quick");
         let bi = v["variant"]["body_index"].as_u64().unwrap_or(0) as usize;
         let choices: Vec<usize> = v["variant"]["choices"].as_array().map(|a| a.iter().filter_map(|c| c.as_u64().map(|c| c as usize)).collect()).unwrap_or_default();
-        return match bodies(tier).get(bi) {
+        return match crate::e3::with_variants(bodies(tier), tier).get(bi) {
             Some(b) => crate::e3::replay_schedule(&*b.body, &choices),
             None => 2,
         };
